@@ -64,6 +64,13 @@ def run(res, b, tier, seed):
     progs.append(pipeline.Case("i%d" % len(progs), {"main.tsh": b'import l "lib.tsh"\nprint(l.Pub())\nprint(l.Two(3))\nfunc own() int {\n\treturn l.Pub() + 1\n}\nprint(own())\n',
                                                      "lib.tsh": b"func Pub() int {\n\treturn 7\n}\nfunc Two(a int) int {\n\treturn a * 2\n}\nfunc Unused() int {\n\treturn 8\n}\n"}))
     progs.append(pipeline.Case("i%d" % len(progs), {"main.tsh": b'import "strings"\nprint(strings.Repeat("ab", 2))\nprint(strings.Index("abc", "c"))\n'}))
+    # two projects whose imported file is byte-identical but imports, by a relative path, files of different content (round 11: C14-D, a
+    # process-wide cache of parsed imports keyed by the content of the imported file alone)
+    twin0 = len(progs)
+    for who in (b"one", b"two"):
+        progs.append(pipeline.Case("i%d" % len(progs), {"main.tsh": b'import u "lib/util.tsh"\nprint(u.Hello())\n',
+                                                         "lib/util.tsh": b'import c "config.tsh"\nfunc Hello() string {\n\treturn "hello from " + c.Name()\n}\n',
+                                                         "lib/config.tsh": b'func Name() string {\n\treturn "project ' + who + b'"\n}\n'}))
     inter1 = len(progs)
     progs.append(pipeline.Case("bad", {"main.tsh": b"x := \n"}))
     # programs the PARSER rejects at different depths of its own recursion - inside a function body, inside a loop inside a function, inside a
@@ -138,6 +145,10 @@ def run(res, b, tier, seed):
         for t in ("bash", "batch"):
             good = inter0 + (bad % (inter1 - inter0))
             directed.append([(good, t), (bad, t), (good, t), (bad, "bash" if t == "batch" else "batch"), (inter0, t)])
+    for t1 in ("bash", "batch"):
+        for t2 in ("bash", "batch"):
+            directed.append([(twin0, t1), (twin0 + 1, t2), (twin0, t2)])
+            directed.append([(twin0 + 1, t1), (twin0, t2)])
     # rejected by the parser, then every good program; and good, rejected, good
     for bad in range(parse_bad0, parse_bad1):
         for t in ("bash", "batch"):
